@@ -24,39 +24,39 @@ def codec_stage():
 PROPS = {
     'C01': dict(
         technique='ASan+UBSan run of encode->decode on generated batches with snapshot round-trip oracle and independent wire-level frame walker',
-        level_text='Exploration: every generated batch (boundary sweeps + seeded random, all payload kinds, all encode overloads, 25 <= max <= 65559) is encoded by the real Encoder and decoded by the real Decoder under ASan/UBSan; decoded packets are compared field by field with the originals and the frames are also parsed by an independent big-endian walker so that errors cancelling between encoder and decoder stay visible. Later additions: top of the legal ranges (max 65536..65559 x payload 65500..65535, big packet followed by a tiny one), frames holding 254..2049 tiny messages followed by a packet that does not fit, batches of 256..4117 packets, packets re-typed in place / edited in place through getPayload() / handed over as copies, decoders with a reassembly open on the very endpoint. Right level: the property is a universally quantified input/output relation of pure, microsecond-fast code, so dense boundary-directed sampling with an exact oracle is what runtime monitoring can give. Later families: one round trip in four copies the decoder between two frames and feeds the copy first (both owe the same packets); one history in four keeps the caller\'s packet objects across encode calls and edits them in place (header setters, Ethernet data through an earlier Payload reference). Round 7: frame sizes above 64 KiB up to 1 000 000 (C01 states no upper bound on the maximum): the largest payload followed by small ones, message headers straddling and starting exactly at frame offsets 65536 / 131072, three 65535-byte payloads in one frame, 4500 tiny packets; kept packet objects whose payload is replaced or re-typed through an earlier Payload reference between two encodes, with no Packet member called.',
+        level_text='Exploration: every generated batch (boundary sweeps + seeded random, all payload kinds, all encode overloads, 25 <= max <= 65559) is encoded by the real Encoder and decoded by the real Decoder under ASan/UBSan; decoded packets are compared field by field with the originals and the frames are also parsed by an independent big-endian walker so that errors cancelling between encoder and decoder stay visible. Later additions: top of the legal ranges (max 65536..65559 x payload 65500..65535, big packet followed by a tiny one), frames holding 254..2049 tiny messages followed by a packet that does not fit, batches of 256..4117 packets, packets re-typed in place / edited in place through getPayload() / handed over as copies, decoders with a reassembly open on the very endpoint. Right level: the property is a universally quantified input/output relation of pure, microsecond-fast code, so dense boundary-directed sampling with an exact oracle is what runtime monitoring can give. Later families: one round trip in four copies the decoder between two frames and feeds the copy first (both owe the same packets); one history in four keeps the caller\'s packet objects across encode calls and edits them in place (header setters, Ethernet data through an earlier Payload reference). Round 7: frame sizes above 64 KiB up to 1 000 000 (C01 states no upper bound on the maximum): the largest payload followed by small ones, message headers straddling and starting exactly at frame offsets 65536 / 131072, three 65535-byte payloads in one frame, 4500 tiny packets; kept packet objects whose payload is replaced or re-typed through an earlier Payload reference between two encodes, with no Packet member called. Round 8: a segmented packet whose first segment carries sequence counter 65533 .. 1; a fixed set of batches also encoded and decoded during static initialisation (forked child) and after main() returned; encode calls cut short by std::bad_alloc at every allocation in turn (all overloads) before the judged call.',
         level_note='Trusted: wire model (harness/common/wire.h), snapshot of public getters, g++ sanitizers. Not covered: inputs outside the generated shapes; nothing is proved.',
         stages=[codec_stage()],
         rule=CODEC_RULE,
         assumptions=COMMON_ASSUME + ['the original packet is observed through its getters before encoding; decoded packets through snapshot.h'],
-        floors=dict(quick=dict(frame_sizes_above_64KiB_cases=96, kept_packets_whose_payload_was_replaced_or_retyped_through_an_earlier_reference=500, distinct_nontrivial=2000, segment_messages=10000, padded_frames=100, roundtrip_with_decoder_history=100),
+        floors=dict(quick=dict(segmented_packets_starting_at_counters_around_the_wrap=10, encode_calls_left_by_allocation_failure=150, frame_sizes_above_64KiB_cases=96, kept_packets_whose_payload_was_replaced_or_retyped_through_an_earlier_reference=500, distinct_nontrivial=2000, segment_messages=10000, padded_frames=100, roundtrip_with_decoder_history=100),
                     thorough=dict(distinct_nontrivial=20000, segment_messages=100000)),
     ),
     'C07': dict(
         technique='ASan+UBSan run of Encoder::encode with an independent frame walker and exactly-once byte conservation monitor',
-        level_text='Exploration: every frame returned for generated batches/configurations is parsed by a walker that shares no code with the library (size bounds, >= 1 complete message, exact tiling, zero padding only up to min, padding only when needed) and every payload byte is matched exactly once and in order against the packets; empty batches on fresh and used encoders are included; sanitizers watch for crashes. One history in four keeps the caller\'s packet objects across encode calls and edits them in place (header setters; Ethernet data through a Payload reference obtained earlier, half of the time with no other call in between); histories continue on copies of the encoder with the original kept alive or destroyed.',
+        level_text='Exploration: every frame returned for generated batches/configurations is parsed by a walker that shares no code with the library (size bounds, >= 1 complete message, exact tiling, zero padding only up to min, padding only when needed) and every payload byte is matched exactly once and in order against the packets; empty batches on fresh and used encoders are included; sanitizers watch for crashes. One history in four keeps the caller\'s packet objects across encode calls and edits them in place (header setters; Ethernet data through a Payload reference obtained earlier, half of the time with no other call in between); histories continue on copies of the encoder with the original kept alive or destroyed. Round 8: encode calls during which an allocation fails: calls that throw are followed by ordinary calls, calls that return normally although an allocation failed owe a well-formed result; first segments at counters around the wrap; probe outside main().',
         level_note='Trusted: wire model and walker; domain packets have a non-zero payload type byte (how padding is recognised).',
         stages=[codec_stage()],
         rule=CODEC_RULE,
         assumptions=COMMON_ASSUME + ['all domain packets carry a non-zero payload-type byte, which is how the independent walker tells a message from padding'],
-        floors=dict(quick=dict(distinct_nontrivial=2000, padded_frames=100, empty_batches=4, top_of_range_cases=1728),
+        floors=dict(quick=dict(segmented_packets_starting_at_counters_around_the_wrap=10, encode_calls_left_by_allocation_failure=150, distinct_nontrivial=2000, padded_frames=100, empty_batches=4, top_of_range_cases=1728),
                     thorough=dict(distinct_nontrivial=20000, padded_frames=1000, empty_batches=4)),
     ),
     'C08': dict(
         technique='ASan+UBSan run of Encoder::encode; observed frame layout compared with an executable reference model of the segmentation/aggregation rules',
-        level_text='Exploration: the layout observed on the wire (which packet, which segment flag, offset, length, per frame) must equal the layout computed by a 60-line reference model written from the rule text, for dense sweeps around every fit/no-fit boundary and seeded random batches; rule-specific keys name the first broken rule. One history in four keeps the caller\'s packet objects across encode calls and edits them in place; histories continue on copies of the encoder with the original kept alive or destroyed.',
+        level_text='Exploration: the layout observed on the wire (which packet, which segment flag, offset, length, per frame) must equal the layout computed by a 60-line reference model written from the rule text, for dense sweeps around every fit/no-fit boundary and seeded random batches; rule-specific keys name the first broken rule. One history in four keeps the caller\'s packet objects across encode calls and edits them in place; histories continue on copies of the encoder with the original kept alive or destroyed. Round 8: allocation failures inside earlier encode calls, first segments at counters around the wrap, probe outside main().',
         level_note='Trusted: ref_encoder.h implements exactly the rules of the statement (they determine the layout uniquely); wire walker.',
         stages=[codec_stage()],
         rule=CODEC_RULE + ' Extra counters fit_boundary_*[d] give how often a packet length was exactly d bytes from a fit/no-fit boundary.',
         assumptions=COMMON_ASSUME + ['the rules of the statement determine the layout uniquely; harness/common/ref_encoder.h implements exactly those rules'],
-        floors=dict(quick={'distinct_nontrivial': 2000, 'fit_boundary_fresh_frame[0]': 100, 'fit_boundary_fresh_frame[1]': 100, 'fit_boundary_fresh_frame[-1]': 100,
+        floors=dict(quick={'segmented_packets_starting_at_counters_around_the_wrap': 10, 'encode_calls_left_by_allocation_failure': 150, 'distinct_nontrivial': 2000, 'fit_boundary_fresh_frame[0]': 100, 'fit_boundary_fresh_frame[1]': 100, 'fit_boundary_fresh_frame[-1]': 100,
                            'fit_boundary_remaining_space[0]': 50, 'fit_boundary_remaining_space[1]': 50, 'fit_boundary_remaining_space[-1]': 50,
                            'type_change_inside_batch': 500, 'message_count_boundary_cases': 102},
                     thorough={'distinct_nontrivial': 20000, 'fit_boundary_remaining_space[0]': 1000, 'fit_boundary_remaining_space[1]': 1000}),
     ),
     'C09': dict(
         technique='ASan+UBSan run of encoder histories with a shadow-state monitor over frame headers (identity, version, type, consecutive 16-bit counter, resets)',
-        level_text='Exploration: histories of setDeviceId/setStreamId/restart/encode on one encoder, including deterministic histories emitting > 140000 frames (two wraps) and resets placed at counters 65535/0/1, are monitored frame by frame against a shadow state; getSequenceCounter() is compared with the last emitted frame after every call. Histories also contain packets with empty payloads (C09 does not restrict lengths), calls left by an exception, and continue on copies of the encoder while the original stays alive or is destroyed. One batch in eight is encoded through an iterator whose dereference runs another encoder to completion (nested encode calls on one thread).',
+        level_text='Exploration: histories of setDeviceId/setStreamId/restart/encode on one encoder, including deterministic histories emitting > 140000 frames (two wraps) and resets placed at counters 65535/0/1, are monitored frame by frame against a shadow state; getSequenceCounter() is compared with the last emitted frame after every call. Histories also contain packets with empty payloads (C09 does not restrict lengths), calls left by an exception, and continue on copies of the encoder while the original stays alive or is destroyed. One batch in eight is encoded through an iterator whose dereference runs another encoder to completion (nested encode calls on one thread). Round 8: encode calls cut short by an allocation failure (every allocation in turn, all overloads) inside the histories; probe outside main().',
         level_note='Trusted: shadow model (reset to 0 on set*/restart, +1 mod 65536 per frame). The value reported between a reset and the next frame is unspecified and unchecked.',
         stages=[codec_stage()],
         rule=('cases = encoder histories of {setDeviceId, setStreamId, restart, encode(batch, ctx)}: deterministic ones that emit > 140000 frames on one '
@@ -68,7 +68,7 @@ PROPS = {
     ),
     'C10': dict(
         technique='ASan+UBSan differential monitor: n-th encode call on a used encoder versus a fresh encoder for the same batch, after every call of generated histories',
-        level_text='Exploration: after every encode call of every generated history (mixed contexts, message types, batches ending with segmented packets, empty batches, config changes) (histories also contain calls that leave encode() by an exception - a failing input iterator, an unallocatable maximum - and continuations on copies of the encoder) the frames are compared with those of a fresh encoder with the same ids: same count, identical bytes outside the counter, constant counter offset; sanitizers and the signal/abort path catch crashes caused by leftover state. One history in four keeps the caller\'s packet objects (same addresses) across calls and edits them in place, so that anything the encoder remembers about a packet object is compared with a fresh encoder fed fresh objects. Round 7: kept packet objects whose payload is replaced or re-typed between two encodes through the Payload reference obtained before the first one (no Packet member called).',
+        level_text='Exploration: after every encode call of every generated history (mixed contexts, message types, batches ending with segmented packets, empty batches, config changes) (histories also contain calls that leave encode() by an exception - a failing input iterator, an unallocatable maximum - and continuations on copies of the encoder) the frames are compared with those of a fresh encoder with the same ids: same count, identical bytes outside the counter, constant counter offset; sanitizers and the signal/abort path catch crashes caused by leftover state. One history in four keeps the caller\'s packet objects (same addresses) across calls and edits them in place, so that anything the encoder remembers about a packet object is compared with a fresh encoder fed fresh objects. Round 7: kept packet objects whose payload is replaced or re-typed between two encodes through the Payload reference obtained before the first one (no Packet member called). Round 8: every allocation of an earlier encode call fails in turn (std::bad_alloc; single-packet, vector and shared_ptr overloads), then the judged call must equal a fresh encoder\'s output; probe outside main().',
         level_note='Trusted: the fresh encoder run is itself checked by the C07/C08 oracles in the same execution.',
         stages=[codec_stage()],
         rule=('cases = encoder histories; after EVERY encode call the frames are compared with those of a fresh encoder (same ids) for the same batch: equal '
@@ -76,58 +76,58 @@ PROPS = {
               'history; distinct = distinct hash of (last message type of the previous call, first type of this call, previous call ended with a '
               'segmented packet?, this call needs segmentation?, batch shape signature).'),
         assumptions=COMMON_ASSUME,
-        floors=dict(quick={'kept_packets_whose_payload_was_replaced_or_retyped_through_an_earlier_reference': 2000, 'distinct_nontrivial': 1000, 'feat:c10_transition': 12, 'encode_calls_left_by_exception': 500}, thorough={'distinct_nontrivial': 20000, 'feat:c10_transition': 16}),
+        floors=dict(quick={'encode_calls_left_by_allocation_failure': 300, 'kept_packets_whose_payload_was_replaced_or_retyped_through_an_earlier_reference': 2000, 'distinct_nontrivial': 1000, 'feat:c10_transition': 12, 'encode_calls_left_by_exception': 500}, thorough={'distinct_nontrivial': 20000, 'feat:c10_transition': 16}),
     ),
 
     'C04': dict(
         technique='ASan+UBSan run of Decoder::decode on wire-model frames; every returned packet compared with an independent big-endian parse (fields, validity class, truncation prefix, zero padding)',
-        level_text='Exploration: frames are laid out by an independent wire model (all payload kinds, consistent / deliberately inconsistent / bus-error payloads, 0..6 messages, every version, message type and payload type byte), decoded on decoders with prior history (open reassemblies on the same endpoint) and each packet is compared field by field with an independent parse; every cut point of the canonical frames and zero paddings of several lengths are enumerated. Validity is demanded only where the statement fixes it (three-valued expectation). One random case in six adds a frame that is well-formed under both the CMP and the TECMP layout (non-zero first byte): the independent CMP parse decides. A fixed set of 150 frames is additionally decoded during static initialisation, inside main() and in an atexit handler; the three answers must agree.',
+        level_text='Exploration: frames are laid out by an independent wire model (all payload kinds, consistent / deliberately inconsistent / bus-error payloads, 0..6 messages, every version, message type and payload type byte), decoded on decoders with prior history (open reassemblies on the same endpoint) and each packet is compared field by field with an independent parse; every cut point of the canonical frames and zero paddings of several lengths are enumerated. Validity is demanded only where the statement fixes it (three-valued expectation). One random case in six adds a frame that is well-formed under both the CMP and the TECMP layout (non-zero first byte): the independent CMP parse decides. A fixed set of 150 frames is additionally decoded during static initialisation, inside main() and in an atexit handler; the three answers must agree. Round 8: decoders that hold 1100, 4200 and 70 000 unfinished reassemblies while frames of every kind arrive from other and from the same endpoints.',
         level_note='Trusted: wire model offsets (C12 layout table), expectValidity() classification in framegen.h; messages with error-in-payload or payload type 0 and message type 0 validity are outside the oracle.',
         stages=[dict(driver='drv_decode', flavour='asan')],
         rule=('cases = per payload kind x k in {0,1,2,5} messages: whole frame + EVERY cut point + zero paddings {1,15,16,17,64}; sweeps of all versions / message types / payload types; '
               '300 inconsistent or bus-error variants per typed kind placed between valid messages; seeded random frames (0..6 messages, 15% inconsistent, 15% bus error) each also cut, padded and repeated. '
               'Non-trivial = a decode that returned >= 1 packet; distinct = distinct hash of (message type, per message (kind, class), variant, validity pattern, packet count).'),
         assumptions=COMMON_ASSUME,
-        floors=dict(quick={'distinct_nontrivial': 5000, 'cut_points': 3000, 'messages_expected_invalid': 5000, 'feat:c04_kinds': 12, 'feat:c04_invalid_kinds': 7, 'feat:c04_inner_length_kinds': 7, 'inner_length_field_values': 5000, 'frames_longer_than_64KiB': 288},
+        floors=dict(quick={'decoders_holding_70000_unfinished_reassemblies': 1, 'decoders_holding_thousands_of_unfinished_reassemblies': 2, 'distinct_nontrivial': 5000, 'cut_points': 3000, 'messages_expected_invalid': 5000, 'feat:c04_kinds': 12, 'feat:c04_invalid_kinds': 7, 'feat:c04_inner_length_kinds': 7, 'inner_length_field_values': 5000, 'frames_longer_than_64KiB': 288},
                     thorough={'distinct_nontrivial': 50000, 'cut_points': 3000, 'feat:c04_kinds': 12}),
     ),
     'C05': dict(
         technique='ASan+UBSan run of multi-endpoint interleaved segment streams; per-call delivery oracle computed from the generation script (exactly-once, at the last segment, content by unique ids)',
-        level_text='Exploration: 1..4 endpoint streams of well-formed segmented (2..12 segments, sizes 0..max, unequal) and unsegmented messages with unique content are merged (all 20 merges x 36 starting-counter pairs exhaustively, bursty random merges otherwise), starting counters include 65533..65535, distinctive non-zero trailing bytes follow segments; deterministic extremes: reassembled totals 65519..65535, messages in 300 / 5000 / 65535 segments, 257 / 300 / 700 endpoints mid-message at once, 70 000 / 140 000 foreign frames between two segments, decoder continued on copies of itself; after EVERY decode call the delivered packets must be exactly the messages that complete at that frame, with the first segment\'s header fields. One message in five carries behind every segment a train of well-formed look-alike messages at a stride that matches its segment sizes; a copy of the decoder taken mid-history is fed the same frames next to the original and must deliver the same packets. Deterministic histories with one huge last / middle segment followed by trailing bytes such that declared length + trailing bytes pass 65536. Round 7: one history with 70 000 endpoints mid-message at the same moment (device ids spread over the id space).',
+        level_text='Exploration: 1..4 endpoint streams of well-formed segmented (2..12 segments, sizes 0..max, unequal) and unsegmented messages with unique content are merged (all 20 merges x 36 starting-counter pairs exhaustively, bursty random merges otherwise), starting counters include 65533..65535, distinctive non-zero trailing bytes follow segments; deterministic extremes: reassembled totals 65519..65535, messages in 300 / 5000 / 65535 segments, 257 / 300 / 700 endpoints mid-message at once, 70 000 / 140 000 foreign frames between two segments, decoder continued on copies of itself; after EVERY decode call the delivered packets must be exactly the messages that complete at that frame, with the first segment\'s header fields. One message in five carries behind every segment a train of well-formed look-alike messages at a stride that matches its segment sizes; a copy of the decoder taken mid-history is fed the same frames next to the original and must deliver the same packets. Deterministic histories with one huge last / middle segment followed by trailing bytes such that declared length + trailing bytes pass 65536. Round 7: one history with 70 000 endpoints mid-message at the same moment (device ids spread over the id space). Round 8: one message kept open while 4.6 million frames of other endpoints pass (more than 2^22).',
         level_note='Trusted: generation script bookkeeping; wire model. Reassembled totals > 65535 bytes are outside the domain.',
         stages=[dict(driver='drv_decode', flavour='asan')],
         rule=('cases = interleaved multi-endpoint histories; every decode call is one evaluation. A history is non-trivial iff >= 2 reassemblies were open simultaneously; '
               'distinct = distinct hash of the interleaving (endpoint order + completions per frame). Extra counters: wrap_crossings, trailing_byte_cases, zero_length_segments.'),
         assumptions=COMMON_ASSUME,
-        floors=dict(quick=dict(histories_with_70000_endpoints_mid_message=1, distinct_nontrivial=2000, wrap_crossings=100, trailing_byte_cases=1000, zero_length_segments=1000, exhaustive_merges=720, reassembled_totals_at_top_of_range=24, trailing_trains_of_look_alike_messages=1000),
+        floors=dict(quick=dict(histories_with_more_than_2_to_the_22_frames_while_a_message_is_open=1, histories_with_70000_endpoints_mid_message=1, distinct_nontrivial=2000, wrap_crossings=100, trailing_byte_cases=1000, zero_length_segments=1000, exhaustive_merges=720, reassembled_totals_at_top_of_range=24, trailing_trains_of_look_alike_messages=1000),
                     thorough=dict(distinct_nontrivial=50000, wrap_crossings=1000, exhaustive_merges=720)),
     ),
     'C06': dict(
         technique='ASan+UBSan run of faulted encoder-like streams (drop/dup/swap/corrupt-version/corrupt-type); model-free integrity oracle via unique ids in the content plus recovery oracle',
-        level_text='Fault enumeration by execution: all single faults and all ordered pairs of faults on 16 canonical streams, seeded random 1..6-fault sequences on streams of 6..60 frames over 1..3 endpoints, and burst losses / displacements of 2..1100 frames (incl. 255/256/257, 511/512/513, 768, 1024) on streams of 300..1400 frames; every delivered packet must be byte-identical to exactly one sent message (found through the id embedded in its content) and every message whose frames arrive complete, in order and uninterrupted on its endpoint must be delivered at its last frame. One unsegmented message in twelve is one the decoder treats as invalid (error flag, payload type 0); a copy of the decoder taken mid-stream is fed the same frames next to the original and must deliver the same packets.',
+        level_text='Fault enumeration by execution: all single faults and all ordered pairs of faults on 16 canonical streams, seeded random 1..6-fault sequences on streams of 6..60 frames over 1..3 endpoints, and burst losses / displacements of 2..1100 frames (incl. 255/256/257, 511/512/513, 768, 1024) on streams of 300..1400 frames; every delivered packet must be byte-identical to exactly one sent message (found through the id embedded in its content) and every message whose frames arrive complete, in order and uninterrupted on its endpoint must be delivered at its last frame. One unsegmented message in twelve is one the decoder treats as invalid (error flag, payload type 0); a copy of the decoder taken mid-stream is fed the same frames next to the original and must deliver the same packets. Round 8: new fault kind: the decode call for a frame is cut short by std::bad_alloc (exhaustively: every frame position x every allocation of that call on the 16 canonical streams, with and without the frame offered again; randomly elsewhere); crowds of 70 .. 5000 endpoints with unfinished messages while a victim endpoint sends complete messages whose segments are 300 .. 5000 foreign frames apart.',
         level_note='Trusted: the fault applicator and the bookkeeping of which sent message each frame carries. Duplicate delivery of duplicated frames is not forbidden by the statement and not flagged.',
         stages=[dict(driver='drv_decode', flavour='asan')],
         rule=('cases = (stream, fault sequence); non-trivial iff at least one fault hit a frame of a segmented message; distinct = distinct hash of the sequence of (fault kind, role of the hit frame in its message: unsegmented/first/middle/last) x stream id.'),
         assumptions=COMMON_ASSUME,
-        floors=dict(quick={'distinct_nontrivial': 1000, 'exhaustive_fault_pairs': 57600, 'recovered_segmented_deliveries': 10000, 'feat:c06_fault_kinds': 5, 'burst_or_displacement_cases': 1000, 'feat:c06_burst_lengths': 20},
+        floors=dict(quick={'crowd_histories': 16, 'exhaustive_allocation_failure_points': 3000, 'distinct_nontrivial': 1000, 'exhaustive_fault_pairs': 57600, 'recovered_segmented_deliveries': 10000, 'feat:c06_fault_kinds': 5, 'burst_or_displacement_cases': 1000, 'feat:c06_burst_lengths': 20},
                     thorough={'distinct_nontrivial': 5000, 'exhaustive_fault_pairs': 57600}),
     ),
     'C17': dict(
         technique='ASan+UBSan+LeakSanitizer run with an invariant hook on the decoder (pending reassemblies, guarded by ASAM_CMP_VERIF) compared with a reference reassembly model after every decode call',
-        level_text='Exploration with an exhaustive core: after EVERY decode call the hooked list of (device, stream, buffered bytes) must equal the set of endpoints the reference model holds open, with buffered bytes <= received segment bytes; all 59049 words of length 5 over a 9-letter frame alphabet (first/mid/last/unsegmented/invalid/wrong-version/wrong-counter/TECMP/runt) on one endpoint (all words of length 4 over two endpoints in thorough) and seeded random multi-endpoint histories. The invalid-message letter takes four forms (error flag, payload type 0, overrunning length, padding-only frame of 1..56 zero bytes); the TECMP letter includes truncated look-alikes (first byte 0, 8..27 bytes) that name the endpoint itself. Round 7: one history with 70 000 endpoints open at once (pending list walked every 4999th frame and at the turning points).',
+        level_text='Exploration with an exhaustive core: after EVERY decode call the hooked list of (device, stream, buffered bytes) must equal the set of endpoints the reference model holds open, with buffered bytes <= received segment bytes; all 59049 words of length 5 over a 9-letter frame alphabet (first/mid/last/unsegmented/invalid/wrong-version/wrong-counter/TECMP/runt) on one endpoint (all words of length 4 over two endpoints in thorough) and seeded random multi-endpoint histories. The invalid-message letter takes four forms (error flag, payload type 0, overrunning length, padding-only frame of 1..56 zero bytes); the TECMP letter includes truncated look-alikes (first byte 0, 8..27 bytes) that name the endpoint itself. Round 7: one history with 70 000 endpoints open at once (pending list walked every 4999th frame and at the turning points). Round 8: frame header values vary (message types 0 and 0xFF, versions 1/2/255, starting counters 0, 1, 2); 150 MB (quick) / 600 MB (thorough) of superseded 60 000-byte reassemblies on one decoder.',
         level_note='Trusted: ref_decoder.h (validated on > 1 M frames, see DESIGN.md 7), the hook (read-only, inline). Restricted to frame shapes on which the reassembly rules are unambiguous.',
         stages=[dict(driver='drv_decode', flavour='asan'),
                 dict(driver='drv_alloc', flavour='plain0')],
         rule=('cases = frame histories; every decode call is one evaluation (one comparison of the hooked pending list with the model); the second stage (drv_alloc, counting operator new/delete, no hook) adds release-after-destruction histories and long growth runs over ever-new endpoints. distinct_nontrivial = distinct (pending-state signature = sorted (endpoint, segments received) of the open messages, last frame letter) pairs observed.'),
         assumptions=COMMON_ASSUME,
-        floors=dict(quick=dict(histories_with_70000_open_endpoints=1, distinct_nontrivial=5000, exhaustive_words_len5_one_endpoint=59049, quiescent_points=10000, growth_runs=16, release_histories=2000),
+        floors=dict(quick=dict(megabytes_of_superseded_reassemblies=150, histories_with_70000_open_endpoints=1, distinct_nontrivial=5000, exhaustive_words_len5_one_endpoint=59049, quiescent_points=10000, growth_runs=16, release_histories=2000),
                     thorough=dict(distinct_nontrivial=50000, exhaustive_words_len5_one_endpoint=59049, exhaustive_words_len4_two_endpoints=104976)),
         coverage_static=dict(quick=dict(exhaustive_subspaces=['all 9^5 frame-letter words on one endpoint']),
                              thorough=dict(exhaustive_subspaces=['all 9^5 frame-letter words on one endpoint', 'all 18^4 words over two endpoints'])),
     ),
     'C18': dict(
         technique='ASan+UBSan metamorphic monitor: one decoder fed the whole history versus fresh decoders fed each endpoint\'s projection, compared packet by packet',
-        level_text='Exploration: histories over 2..5 endpoints from a small id alphabet, dense in segment traffic, with 25% structurally mutated frames, TECMP frames, runts and re-addressed copies sprinkled in; all 20 merges of two 3-frame scripts for 400 script/endpoint-pair combinations are enumerated. For every endpoint the snapshot sequence from the mixed run must equal the run on its projection. Hostile frames include truncated TECMP look-alikes (first byte 0, 8..27 bytes) that would name a live endpoint if misread as CMP; endpoint sets include pairs whose decimal digit strings coincide. Round 7: three histories with 1100, 4200 and 70 000 endpoints mid-message at the same moment, finished or aborted in another order and compared with as many single-endpoint decoders.',
+        level_text='Exploration: histories over 2..5 endpoints from a small id alphabet, dense in segment traffic, with 25% structurally mutated frames, TECMP frames, runts and re-addressed copies sprinkled in; all 20 merges of two 3-frame scripts for 400 script/endpoint-pair combinations are enumerated. For every endpoint the snapshot sequence from the mixed run must equal the run on its projection. Hostile frames include truncated TECMP look-alikes (first byte 0, 8..27 bytes) that would name a live endpoint if misread as CMP; endpoint sets include pairs whose decimal digit strings coincide. Round 7: three histories with 1100, 4200 and 70 000 endpoints mid-message at the same moment, finished or aborted in another order and compared with as many single-endpoint decoders. Round 8: in the mass histories aborted endpoints later receive stray continuation / last segments, half of them carrying exactly the counter a reassembly that wrongly survived the abort is waiting for.',
         level_note='Trusted: attribution of a frame to an endpoint by its header bytes (independent parse). Needs no reference decision on malformed frames.',
         stages=[dict(driver='drv_decode', flavour='asan')],
         rule=('cases = histories; non-trivial iff >= 2 endpoints had an open reassembly at the same time (a foreign frame arrived in between); distinct = distinct hash of the interleaving incl. mutation kinds.'),
@@ -138,30 +138,30 @@ PROPS = {
 
     'C02': dict(
         technique='ASan (vector annotations) + UBSan + LeakSanitizer on Decoder::decode over mutated frame histories, inputs in read-only guard-paged mappings, ownership snapshots re-read after input and decoder are released; libFuzzer in the thorough tier',
-        level_text='Exploration: histories of hostile byte strings (every truncation of ~55 canonical CMP/TECMP frames, every byte / 16-bit field of their first 96 bytes set to 17 hostile values, all 256 TECMP message types x 11 data types x sizes 28..52, structurally mutated generated frames, random bytes up to 64 KiB) are decoded on one decoder per history; inputs end at a PROT_NONE page and are read-only (an over-read or any write faults), every 4th input sits in an exact-size heap block (red zones); further families: reassemblies whose segment totals cross 65535, typed payloads at their structural boundaries as the last message of a frame that ends exactly with the payload, the product version x message type x counter x payload length x segment kind on decoders with and without state, frames longer than 64 KiB, null / empty inputs; each returned packet is checked (non-null, payload object, <= 1 per 12 bytes), fully read, and re-read after the input is unmapped, more frames decoded and the decoder destroyed.',
+        level_text='Exploration: histories of hostile byte strings (every truncation of ~55 canonical CMP/TECMP frames, every byte / 16-bit field of their first 96 bytes set to 17 hostile values, all 256 TECMP message types x 11 data types x sizes 28..52, structurally mutated generated frames, random bytes up to 64 KiB) are decoded on one decoder per history; inputs end at a PROT_NONE page and are read-only (an over-read or any write faults), every 4th input sits in an exact-size heap block (red zones); further families: reassemblies whose segment totals cross 65535, typed payloads at their structural boundaries as the last message of a frame that ends exactly with the payload, the product version x message type x counter x payload length x segment kind on decoders with and without state, frames longer than 64 KiB, null / empty inputs; each returned packet is checked (non-null, payload object, <= 1 per 12 bytes), fully read, and re-read after the input is unmapped, more frames decoded and the decoder destroyed. Round 8: decode calls cut short by std::bad_alloc at every allocation in turn (frame optionally offered again) inside histories; every canonical frame, TECMP too, also decoded during static initialisation in a forked child with an alarm (a hang or crash there is a verdict) and after main() returned; 70 000 .. 300 000 foreign decode calls between two segments of one message.',
         level_note='Trusted: ASan/UBSan/LSan and the MMU. Red zones miss far overflows inside other live blocks; guard pages cover the input side exactly. Termination is observed (watchdog), not proved.',
         stages=[dict(driver='drv_memsafe', flavour='asan'),
                 dict(driver='fuzz_decode', flavour='fuzz', runner='fuzz', tiers=('thorough',), runs=dict(thorough=8000000), max_len=4096)],
         rule=('cases = deterministic canonical-frame mutations + TECMP sweep + seeded random histories of 1..40 frames; every decode call is one evaluation. distinct_nontrivial = distinct (frame family + mutation kinds, packets accepted (0,1,2,3+)) pairs and (family, mutated field) pairs.'),
         assumptions=COMMON_ASSUME,
-        floors=dict(quick={'distinct_nontrivial': 3000, 'inputs_guard_paged_readonly': 50000, 'ownership_rechecks': 20000, 'tecmp_message_types_swept': 256, 'reassembly_totals_beyond_65535': 24, 'typed_boundary_cases': 112, 'segment_header_product_cases': 45, 'feat:c02_family_truncated': 49, 'feat:c02_family_field_mutated': 49},
+        floors=dict(quick={'histories_with_more_than_65536_calls_between_two_segments': 3, 'allocation_failure_histories': 1000, 'distinct_nontrivial': 3000, 'inputs_guard_paged_readonly': 50000, 'ownership_rechecks': 20000, 'tecmp_message_types_swept': 256, 'reassembly_totals_beyond_65535': 24, 'typed_boundary_cases': 112, 'segment_header_product_cases': 45, 'feat:c02_family_truncated': 49, 'feat:c02_family_field_mutated': 49},
                     thorough={'distinct_nontrivial': 5000, 'tecmp_message_types_swept': 256}),
     ),
     'C03': dict(
         technique='ASan (vector annotations) + UBSan on validators, constructors and every const accessor, plus an explicit pointer-range oracle on every reported view; three paths (class validator, decoder, message-level validator)',
-        level_text='Exploration: for each typed class, every buffer length 0..header+8 (and larger), every inner length field swept (8-bit fields exhaustively, 16-bit fields on a lattice in quick / exhaustively in thorough) on zero / ones / random backgrounds, every truncation of consistent payloads, and seeded semi-valid random buffers; accepted buffers are copied to an exact-size heap block that is freed before all accessors run; every (pointer, length) view must lie inside [getRawPayload(), +getLength()]. Views reported by a decoded packet are re-checked after the packet was copied, the accessors were called again and the copy was destroyed; buffers above 65535 bytes (and a quarter of the others) are also fed through the decoder as 2..5 segments and every packet returned valid is held to the same view oracle. A fixed set of 140 typed payloads is additionally decoded during static initialisation, inside main() and in an atexit handler (after the library\'s function-local statics are gone): the verdicts must agree and every valid packet passes the view oracle each time.',
+        level_text='Exploration: for each typed class, every buffer length 0..header+8 (and larger), every inner length field swept (8-bit fields exhaustively, 16-bit fields on a lattice in quick / exhaustively in thorough) on zero / ones / random backgrounds, every truncation of consistent payloads, and seeded semi-valid random buffers; accepted buffers are copied to an exact-size heap block that is freed before all accessors run; every (pointer, length) view must lie inside [getRawPayload(), +getLength()]. Views reported by a decoded packet are re-checked after the packet was copied, the accessors were called again and the copy was destroyed; buffers above 65535 bytes (and a quarter of the others) are also fed through the decoder as 2..5 segments and every packet returned valid is held to the same view oracle. A fixed set of 140 typed payloads is additionally decoded during static initialisation, inside main() and in an atexit handler (after the library\'s function-local statics are gone): the verdicts must agree and every valid packet passes the view oracle each time. Round 8: packets returned valid by a decoder one of whose earlier calls was cut short by an allocation failure; static-initialisation probe in a forked child.',
         level_note='Trusted: ASan and the range oracle in accessors.h. One-directional: rejected buffers are skipped (accept/reject split is reported).',
         stages=[dict(driver='drv_memsafe', flavour='asan'),
                 dict(driver='fuzz_payload', flavour='fuzz', runner='fuzz', tiers=('thorough',), runs=dict(thorough=16000000), max_len=2048)],
         rule=('cases = (class, buffer); every buffer is one evaluation run through three paths. Non-trivial = buffer accepted by the class validator; distinct = distinct (class, buffer content hash).'),
         assumptions=COMMON_ASSUME,
-        floors=dict(quick={'distinct_nontrivial': 20000, 'accepted_can': 1000, 'accepted_canfd': 1000, 'accepted_lin': 1000, 'accepted_eth': 1000, 'accepted_analog': 1000, 'accepted_cm': 1000, 'accepted_if': 1000, 'feat:c03_classes': 7, 'buffers_longer_than_65535_cases': 24},
+        floors=dict(quick={'allocation_failure_histories': 1000, 'distinct_nontrivial': 20000, 'accepted_can': 1000, 'accepted_canfd': 1000, 'accepted_lin': 1000, 'accepted_eth': 1000, 'accepted_analog': 1000, 'accepted_cm': 1000, 'accepted_if': 1000, 'feat:c03_classes': 7, 'buffers_longer_than_65535_cases': 24},
                     thorough={'distinct_nontrivial': 200000, 'accepted_cm': 10000, 'accepted_if': 10000}),
     ),
 
     'C11': dict(
         technique='ASan+UBSan run of every public setter against a shadow bit-image of the object (table of offset/width/mask per field): read-back, all other getters, all other raw bits',
-        level_text='Exploration, exhaustive for small fields: for 20 header/payload classes and 175 fields, every setter is called from default / all-zero / all-ones / random prior states with every in-range value (<= 8 bit exhaustive; <= 16 bit exhaustive in thorough) and in random set/clear sequences; after each call the value must read back, every other getter must equal the extract of the shadow image and no raw bit outside the field may change. Overlapping views (flags word vs single flags, id word, crc word, LIN pid) are judged through the shared shadow word. TECMP::Payload / TECMP::PayloadType type setters and TECMP::LinPayload::setData are part of the tables. A fixed builder sequence (every CAN / CAN-FD length 0..64, one object of every other class, raw packet headers) is additionally run during static initialisation, inside main() and in an atexit handler; the results must agree. Round 7: the run-time type tag of typed payload objects is changed through the Payload base (setRawPayloadType / setMessageType / setType, arbitrary values) between the field setters of a sequence and before every fourth single-setter case: no byte and no typed getter may change and every later setter is judged by the static class.',
+        level_text='Exploration, exhaustive for small fields: for 20 header/payload classes and 175 fields, every setter is called from default / all-zero / all-ones / random prior states with every in-range value (<= 8 bit exhaustive; <= 16 bit exhaustive in thorough) and in random set/clear sequences; after each call the value must read back, every other getter must equal the extract of the shadow image and no raw bit outside the field may change. Overlapping views (flags word vs single flags, id word, crc word, LIN pid) are judged through the shared shadow word. TECMP::Payload / TECMP::PayloadType type setters and TECMP::LinPayload::setData are part of the tables. A fixed builder sequence (every CAN / CAN-FD length 0..64, one object of every other class, raw packet headers) is additionally run during static initialisation, inside main() and in an atexit handler; the results must agree. Round 7: the run-time type tag of typed payload objects is changed through the Payload base (setRawPayloadType / setMessageType / setType, arbitrary values) between the field setters of a sequence and before every fourth single-setter case: no byte and no typed getter may change and every later setter is judged by the static class. Round 8: builder calls with an allocation failpoint (a call that completes although an allocation failed inside it is judged like any other).',
         level_note='Trusted: field table in harness/common/fields.h (offset, width, mask written from the protocol layout). Packet / PayloadType have no wire image: a virtual image serialised from their getters is used.',
         stages=[dict(driver='drv_fields', flavour='asan')],
         rule='cases = (class, field, background) with every in-range value written (exhaustive for fields <= 8 bits, for <= 16 bits a 600-value lattice in quick and exhaustive in thorough, boundary + walking bits + 64 random for wider fields, special and random finite values for floats) + random sequences of 8..64 setter calls on one object; every setter call is one evaluation. distinct_nontrivial = distinct (class, field, background in {default, all-zero, all-ones, random}, value class in {0, max, single-bit, other}) tuples.',
@@ -170,7 +170,7 @@ PROPS = {
     ),
     'C12': dict(
         technique='ASan+UBSan run comparing API writes and getter reads with an independent layout table (byte offset, width, bit mask, big-endian) on raw object images; header sizes and reserved bits of default objects',
-        level_text='Exploration, exhaustive for small fields: (a) sizes of all header classes and default payloads equal the standard, reserved bits of default objects are zero; (b) a value written through the API appears big-endian at exactly the table position and nothing else changes; (c) for arbitrary raw images every getter returns the value the table extracts; (d) reserved bits survive every in-range write; (e) the variable-length parts written by setData (length prefixes, data, NUL / zero padding of strings and stream-id lists) sit at the offsets the layout prescribes, from default objects and from objects with prior content. Same executions as C11 (a-d) and C13 (e), judged against the layout table / wire-model serialisation. Packet::getRawCmpHeader / getRawMessageHeader are called for every message type into destinations pre-filled with zeros, ones and random bytes and all 24 bytes are compared with the layout; TECMP type words, TECMP LIN setData and the derived voltage getter are covered. A second stage runs the codec driver: the 16 message header bytes of every message the encoder emits (random batches and call histories, all message types) are compared with the layout computed from the packet\'s fields, and the reserved byte of every frame header must be zero.',
+        level_text='Exploration, exhaustive for small fields: (a) sizes of all header classes and default payloads equal the standard, reserved bits of default objects are zero; (b) a value written through the API appears big-endian at exactly the table position and nothing else changes; (c) for arbitrary raw images every getter returns the value the table extracts; (d) reserved bits survive every in-range write; (e) the variable-length parts written by setData (length prefixes, data, NUL / zero padding of strings and stream-id lists) sit at the offsets the layout prescribes, from default objects and from objects with prior content. Same executions as C11 (a-d) and C13 (e), judged against the layout table / wire-model serialisation. Packet::getRawCmpHeader / getRawMessageHeader are called for every message type into destinations pre-filled with zeros, ones and random bytes and all 24 bytes are compared with the layout; TECMP type words, TECMP LIN setData and the derived voltage getter are covered. A second stage runs the codec driver: the 16 message header bytes of every message the encoder emits (random batches and call histories, all message types) are compared with the layout computed from the packet\'s fields, and the reserved byte of every frame header must be zero. Round 8: builder calls with an allocation failpoint.',
         level_note='Trusted: the layout table, transcribed from ASAM CMP 1.0 / TECMP as documented in DESIGN.md section 6 (the standard documents are not in the sandbox; the captured frames in the repository tests corroborate it).',
         stages=[dict(driver='drv_fields', flavour='asan'), dict(driver='drv_codec', flavour='asan')],
         rule='cases = (class, field, background) with every in-range value written (exhaustive for fields <= 8 bits, for <= 16 bits a 600-value lattice in quick and exhaustive in thorough, boundary + walking bits + 64 random for wider fields, special and random finite values for floats) + random sequences of 8..64 setter calls on one object; every setter call is one evaluation. distinct_nontrivial = distinct (class, field, background in {default, all-zero, all-ones, random}, value class in {0, max, single-bit, other}) tuples.',
@@ -179,7 +179,7 @@ PROPS = {
     ),
     'C13': dict(
         technique='ASan+UBSan run of setData / header-setter sequences per payload class; raw bytes compared with the wire model\'s serialisation of a shadow of the logical content; own validator and decoder must accept',
-        level_text='Exploration with exhaustive length sweeps: CAN / CAN-FD / LIN data lengths 0..255, Ethernet / analog 0..70 + boundaries up to 65529, capture-module strings of every length 0..1000 for each of the four strings, all (first, second) stream-id counts in 0..40 x 0..40, and random sequences of 1..6 setData calls interleaved with header setters. After every setData: bytes equal the independent serialisation of the final content (hence history independent), getters return what was supplied, DLC code, NUL termination and even padding, validator and decoder accept. A fixed builder sequence (every CAN / CAN-FD length 0..64, one object of every other class) is additionally run during static initialisation, inside main() and in an atexit handler; the results must agree.',
+        level_text='Exploration with exhaustive length sweeps: CAN / CAN-FD / LIN data lengths 0..255, Ethernet / analog 0..70 + boundaries up to 65529, capture-module strings of every length 0..1000 for each of the four strings, all (first, second) stream-id counts in 0..40 x 0..40, and random sequences of 1..6 setData calls interleaved with header setters. After every setData: bytes equal the independent serialisation of the final content (hence history independent), getters return what was supplied, DLC code, NUL termination and even padding, validator and decoder accept. A fixed builder sequence (every CAN / CAN-FD length 0..64, one object of every other class) is additionally run during static initialisation, inside main() and in an atexit handler; the results must agree. Round 8: one builder call in sixteen runs with an allocation failpoint: a call that throws ends the sequence, a call that completes although an allocation failed inside it is judged like any other.',
         level_note='Trusted: wire-model serialisers in wire.h. Header flags used are bus-error free so that "the decoder accepts" is demanded only where the statement demands it.',
         stages=[dict(driver='drv_fields', flavour='asan')],
         rule='cases = builder sequences; every checked setData call is one evaluation; distinct_nontrivial = distinct (class, previous-length relation, parity pattern, DLC-code?/vendor-data?, first call?) tuples combined with the length.',
@@ -188,12 +188,12 @@ PROPS = {
     ),
     'C14': dict(
         technique='ASan+UBSan run of copy/move construction and assignment over all ordered (source, target) pairs of an object pool, snapshot comparison, no-sharing mutation test, equality laws on all pairs',
-        level_text='Exploration with exhaustive pairing: a pool of ~40 packets (default packet, zero-length payloads of different types, every payload kind, equal-looking twins, 13 variants differing in exactly one field) - all ordered pairs x {copy-construct, move-construct, copy-assign, move-assign}, self-assignment, and all pairs for ==/!= (reflexive, symmetric, agrees with the field-by-field snapshot for non-empty payloads, != is the negation); Payload, typed payload bytes and TECMP::Payload likewise. After the all-pairs comparison every pool object is edited in place through a typed setter and must equal a never compared object with the same edit (and differ from its unedited twin), so must its copies; equality is also checked to discriminate other length / first byte / type.',
+        level_text='Exploration with exhaustive pairing: a pool of ~40 packets (default packet, zero-length payloads of different types, every payload kind, equal-looking twins, 13 variants differing in exactly one field) - all ordered pairs x {copy-construct, move-construct, copy-assign, move-assign}, self-assignment, and all pairs for ==/!= (reflexive, symmetric, agrees with the field-by-field snapshot for non-empty payloads, != is the negation); Payload, typed payload bytes and TECMP::Payload likewise. After the all-pairs comparison every pool object is edited in place through a typed setter and must equal a never compared object with the same edit (and differ from its unedited twin), so must its copies; equality is also checked to discriminate other length / first byte / type. Round 8: a sub-pool of packets with payloads of 1 KiB .. 100 000 bytes through every operation pair and the stale-handle checks; packets built the way the decoder builds them (concrete payload class) and then flagged with a bus error by the application.',
         level_note='Trusted: snapshot.h (all null-safe getters + payload bytes). A packet without payload can only be observed through isValid()/getPayloadLength().',
         stages=[dict(driver='drv_fields', flavour='asan')],
         rule='cases = rounds over a pool (4 deterministic pools + seeded random pools); every operation on a pair is one evaluation; distinct_nontrivial = distinct (source class, target class, operation, relation) tuples.',
         assumptions=COMMON_ASSUME,
-        floors=dict(quick={'distinct_nontrivial': 3000, 'equality_pairs': 50000, 'feat:c14_relations': 12}, thorough={'distinct_nontrivial': 3000}),
+        floors=dict(quick={'large_payload_sub_pools': 100, 'distinct_nontrivial': 3000, 'equality_pairs': 50000, 'feat:c14_relations': 12}, thorough={'distinct_nontrivial': 3000}),
     ),
 
     'C15': dict(
@@ -210,7 +210,7 @@ PROPS = {
 
     'C16': dict(
         technique='ASan+UBSan exhaustive depth-first execution of all operation sequences up to a bound on copies of the real Status object, every node compared with a reference latest-message map; plus long random sequences',
-        level_text='Bounded-exhaustive exploration by execution: all sequences of length <= 5 (quick; <= 6 thorough) over the 28 concrete operations {update(cm,d), update(if,d,i), update(data,d), removeDeviceById(d), removeInterfaceById(d,i), clear} on 3 devices x 3 interfaces (ids chosen to collide under 8/16-bit truncation) are executed on copies of the real object and after EVERY operation the full observable state (counts, every lookup incl. absent ids, every stored packet, interface ids) is compared with a per-device/per-interface latest-message map; random sequences of length 200 go beyond the bound. Status payloads repeat (six per kind) while every header attribute, incl. the packet-level interface id and segment type, differs from packet to packet. One deterministic case feeds interface status payloads of 65535..131108 bytes (the lengths around which a 16-bit length wraps).',
+        level_text='Bounded-exhaustive exploration by execution: all sequences of length <= 5 (quick; <= 6 thorough) over the 28 concrete operations {update(cm,d), update(if,d,i), update(data,d), removeDeviceById(d), removeInterfaceById(d,i), clear} on 3 devices x 3 interfaces (ids chosen to collide under 8/16-bit truncation) are executed on copies of the real object and after EVERY operation the full observable state (counts, every lookup incl. absent ids, every stored packet, interface ids) is compared with a per-device/per-interface latest-message map; random sequences of length 200 go beyond the bound. Status payloads repeat (six per kind) while every header attribute, incl. the packet-level interface id and segment type, differs from packet to packet. One deterministic case feeds interface status payloads of 65535..131108 bytes (the lengths around which a 16-bit length wraps). Round 8: updates cut short by std::bad_alloc (one of the first six allocations): the tracker must equal the model before or after, never something in between.',
         level_note='Trusted: the 40-line map model in drv_status.cpp; Status is copied at each node with its own copy constructor (a copy that differed from the original would itself be flagged by the comparison). Entry order is unspecified and not compared.',
         stages=[dict(driver='drv_status', flavour='asan')],
         rule='cases = two-operation prefixes (784) whose subtree is explored exhaustively + random sequences; every operation executed is one evaluation (one full state comparison). distinct_nontrivial = distinct (model state hash before, operation) transitions.',
@@ -233,7 +233,7 @@ PROPS = {
 
     'C20': dict(
         technique='valgrind memcheck definedness client checks on every output byte / getter value of a mixed workload, plus a differential monitor (operator new fill patterns 0xA5 / 0x3C, freed blocks scribbled; -ftrivial-auto-var-init=zero versus =pattern builds) comparing output digests',
-        level_text='Exploration: a seeded mixed workload (encode+decode of every payload kind, padded and unpadded frames, control / vendor / unknown-type messages whose header leaves id bytes unused, aggregated frames with invalid payloads, interleaved reassembly with trailing bytes, payload builders, TECMP conversion incl. LIN, status tracker) runs (1) under memcheck with VALGRIND_CHECK_MEM_IS_DEFINED on every frame byte, packet getter value, payload byte and re-serialised header, and every uninitialised-value error with a library frame taken from the valgrind log; (2) natively with fresh heap blocks filled with two different patterns (digests per case must be equal) in two builds whose uninitialised stack variables are zero / pattern filled (per-shard digest folds must be equal). A fixed 600-step workload is additionally run during static initialisation and compared with the same run inside main().',
+        level_text='Exploration: a seeded mixed workload (encode+decode of every payload kind, padded and unpadded frames, control / vendor / unknown-type messages whose header leaves id bytes unused, aggregated frames with invalid payloads, interleaved reassembly with trailing bytes, payload builders, TECMP conversion incl. LIN, status tracker) runs (1) under memcheck with VALGRIND_CHECK_MEM_IS_DEFINED on every frame byte, packet getter value, payload byte and re-serialised header, and every uninitialised-value error with a library frame taken from the valgrind log; (2) natively with fresh heap blocks filled with two different patterns (digests per case must be equal) in two builds whose uninitialised stack variables are zero / pattern filled (per-shard digest folds must be equal). A fixed 600-step workload is additionally run during static initialisation and compared with the same run inside main(). Round 8: decode calls cut short by an allocation failure and the frame offered again inside the workload (all four builds and under memcheck).',
         level_note='Trusted: valgrind memcheck bit-precise definedness tracking (binary built without sanitizers and without auto-var-init for this stage); the replaced operator new/delete in the harness. "All prior heap contents" is modelled by two fill patterns plus the definedness checker.',
         stages=[dict(driver='drv_uninit', flavour='plain', runner='memcheck', shards=dict(quick=16, thorough=16)),
                 dict(driver='drv_uninit', flavour='plain0', fold_feature='case_digest_fold'),
